@@ -282,6 +282,8 @@ def gen_history(rng, maxlen=12, from_ctor=False):
         vb = step + 1
         if r < 0.34 or not sim.vars:
             key = rng.choice(KEYS)
+            if rng.random() < 0.12:
+                key = rng.choice(gen.DIMS)       # a variable stored under the name of a dimension (coordinate-like variable)
             if rng.random() < 0.14:
                 # a value that is not a DimArray: ndarray / nested list / scalar (dimensions x0, x1, ... labelled 0..n-1)
                 raw = rng.choice(["ndarray", "ndarray", "list", "list", "scalar"])
